@@ -18,7 +18,7 @@ def prop(pid, level="model_checking", rule=None):
 
 # (W, S, MaxInit, MaxBulk)
 ANS_QUICK = [(2, 4, 3, 2), (2, 5, 3, 1), (2, 6, 4, 1), (3, 6, 3, 1)]
-ANS_THOROUGH = ANS_QUICK + [(2, 4, 5, 4), (2, 8, 5, 1), (3, 8, 3, 1), (4, 8, 3, 1), (4, 12, 3, 0)]
+ANS_THOROUGH = ANS_QUICK + [(2, 4, 4, 3), (2, 8, 5, 1), (3, 8, 3, 1), (4, 8, 2, 1), (4, 12, 2, 0)]
 ANS_LAWS = ["TypeInv", "StateInv", "LawPopAfterPush", "LawPushAfterPop", "LawDecodeTotal", "LawImportExport",
             "LawSizes", "LawStepBound", "LawBinary"]
 
@@ -47,7 +47,7 @@ ANS_DRIVE_THOROUGH = ANS_DRIVE_QUICK + [(2, 6, "1,2"), (4, 8, "1,2,3,4"), (4, 12
 def ans_traces(ctx, exact, abstract):
     """impl -> spec: random histories on the real AnsCoder at real and tiny widths; every recorded event is validated by TLC
     against TraceAns.tla (exact, every field) and/or AbsAns.tla (format-agnostic stack semantics)."""
-    n = 20000 if ctx.tier == "thorough" else 4000
+    n = 9000 if ctx.tier == "thorough" else 4000
     for (w, s, precs) in (ANS_DRIVE_THOROUGH if ctx.tier == "thorough" else ANS_DRIVE_QUICK):
         base = os.path.join(ctx.work, "anstrace_%d_%d" % (w, s))
         ctx.vh("drive_ans", extra=["--w", str(w), "--s", str(s), "--precs", precs, "--n", str(n), "--trace", base])
@@ -300,7 +300,7 @@ def fixed_cfgs(ctx):
 UNIFORM_QUICK = [(2, 1), (2, 2), (3, 2), (3, 3), (4, 3), (4, 4), (8, 5)]
 UNIFORM_THOROUGH = UNIFORM_QUICK + [(5, 4), (5, 5), (8, 8)]
 FAST_QUICK = [(3, 3, 4, 8), (4, 3, 4, 8), (4, 4, 4, 8), (8, 5, 4, 16)]
-FAST_THOROUGH = FAST_QUICK + [(2, 2, 3, 8), (3, 2, 3, 8), (5, 5, 5, 16), (8, 8, 5, 16), (16, 12, 5, 16)]
+FAST_THOROUGH = FAST_QUICK + [(2, 2, 3, 8), (3, 2, 3, 8), (5, 5, 4, 16), (8, 8, 4, 16), (16, 12, 4, 16)]
 
 
 # (B, P, MaxLen = n-1, MaxVal = 2^m) for step-CDF leaky quantisation
